@@ -395,6 +395,25 @@ example : str2timedelta (timedelta2str ⟨-1, 86399, 999999⟩) = some (-1) := b
 example : str2timedelta "-0:0:0.000001".toList = some (-1) := by decide
 example : str2timedelta "25:2:3".toList = some 90123000000 := by decide
 
+/-! ### arrays and JSON strings (SQLiteArrayConverter: json.dumps with separators (',', ':') and ensure_ascii=False / json.loads) -/
+
+/-- int arrays: every list of integers (any length, any magnitude, either sign) is read back unchanged -/
+theorem C07_roundtrip_int_array (l : List Int) : loadsIntArray (dumpsIntArray l) = some l := loads_dumps_intArray l
+
+/-- JSON string literals: every string — quotes, backslashes, NUL and the other control characters, any code point —
+    decodes to itself, whatever follows the closing quote -/
+theorem C07_json_string_roundtrip (s rest : List Char) : decodeBody (escBody s ++ '"' :: rest) = some (s, rest) :=
+  decodeBody_escBody s rest
+
+/-- str arrays: every list of strings (empty items, items containing ',' '[' ']' '"' '\\' and control characters) is read back unchanged -/
+theorem C07_roundtrip_str_array (l : List (List Char)) : loadsStrArray (dumpsStrArray l) = some l := loads_dumps_strArray l
+
+example : dumpsIntArray [1, -2, 30] = "[1,-2,30]".toList := by
+  rw [show "[1,-2,30]".toList = ['[', '1', ',', '-', '2', ',', '3', '0', ']'] from rfl]
+  simp [dumpsIntArray, joinComma, intText, natDigits, digitChar]
+example : dumpsStrArray [['a', '"'], [], [',']] = ['[', '"', 'a', '\\', '"', '"', ',', '"', '"', ',', '"', ',', '"', ']'] := by decide
+example : loadsStrArray ['[', '"', '\\', 'u', '0', '0', '0', '0', '"', ']'] = some [[Char.ofNat 0]] := by decide
+
 /-! ### column affinity: DATE / TIME / DATETIME columns have NUMERIC affinity, yet the texts Pony binds stay TEXT -/
 
 example : affinityOf "DATE".toList = .numeric ∧ affinityOf "TIME(3)".toList = .numeric ∧ affinityOf "DATETIME".toList = .numeric ∧
